@@ -528,10 +528,18 @@ def o_c12(v):
         else:
             crit = sorted(e for e in (v.first(m, 'exit-raise') for m in v.b.members[S]
                                       if v.b.spec[m].get('critical')) if e is not None)
-            stop_tick = crit[0][0]
+            # "from the instant a critical job raises, that scheduler starts no further job" (C05): a job that
+            # becomes eligible within that very instant, even a few loop iterations before the failure, may be
+            # delivered to the scheduler in the same batch as the failure and need not start
+            stop_tick = min([e[0] for e in v.ev if e[1] >= crit[0][1] and e[0] >= begin[0]] + [crit[0][0]])
         if cause == 'NONE':
+            # the run is over from the instant its last regular job finished (C09): what becomes eligible within
+            # that very instant (a forever job, typically) may reach the scheduler in the same batch and not start
             fins = [v.first(m, 'exit-ret', 'exit-raise') for m in v.b.members[S] if not v.b.spec[m].get('forever')]
-            stop_tick = max([f[0] for f in fins] + [begin[0]])
+            t_last = max([f[1] for f in fins] + [begin[1]])
+            stop_tick = min([e[0] for e in v.ev if e[1] >= t_last and e[0] > begin[0]] + [end[0]])
+            if not fins:
+                stop_tick = begin[0]
         req = {m: [] for m in v.b.members[S]}
         for a, c in v.b.edges[S]:
             req[a].append(c)
